@@ -138,8 +138,9 @@ StringDictionaryHHTFC::StringDictionaryHHTFC(IteratorDictString *it,
 
     for (uint current = 1; current <= elements; current++) {
       // Checking the available space in textStrings and
-      // realloc if required
-      while ((bytesStrings + (2 * maxlength)) > reservedStrings)
+      // realloc if required (a codeword takes up to 32 bits, as tmp assumes;
+      // an internal string adds a VByte symbol and starts inside a byte)
+      while ((bytesStrings + 4 * (size_t)maxlength + 6) > reservedStrings)
         reservedStrings = Reallocate(&textStrings, reservedStrings);
 
       if (((current - 1) % bucketsize) == 0) {
